@@ -393,7 +393,7 @@ impl<T: Val> OwnEnv<T> {
                 let greatest = a.iter().all(|y| leq(y, &a[i]));
                 // representations without IsBot/IsTop (MapUnion<VecMap>) are judged as "never claims"
                 // in neither direction: skip by pretending the correct answer
-                let ib = ops.is_bot.map(|f| f(x)).unwrap_or(least);
+                let ib = ops.is_bot.map(|f| f(x)).unwrap_or(least && T::BOT_IN_U);
                 let it = ops.is_top.map(|f| f(x)).unwrap_or(greatest && T::TOP_IN_U);
                 // sound for any universe: a claimed bottom / top must at least be least / greatest
                 // among the enumerated values.
@@ -401,10 +401,9 @@ impl<T: Val> OwnEnv<T> {
                     let w = (0..u.len()).find(|j| !leq(&a[i], &a[*j])).unwrap();
                     o.fail("is_bot", format!("is_bot() = true but {} is not >= it (model {} vs {})", u[w].show(), mshow(&a[w]), mshow(&a[i])));
                 }
-                // the universe always contains the type's bottom when it has one (or two
-                // incomparable minimal elements when it has none), so "least in the universe" means
-                // "bottom of the type".
-                if least && !ib {
+                // only where the universe contains the type's bottom does "least in the universe"
+                // mean "bottom of the type" (not for fixed-size representations / Conflict).
+                if T::BOT_IN_U && least && !ib {
                     o.fail("is_bot", "is_bot() = false but the value is below every value of the universe (it is the bottom)".into());
                 }
                 if it && !greatest {
